@@ -459,7 +459,7 @@ func c20StormOnce(t *testing.T, seed int64, st *c20Stats) {
 	spawn(func() { end(b, hb) })
 	time.Sleep(5 * time.Millisecond)
 	close(stop)
-	if !c20WaitTimeout(&wg, 15*time.Second) {
+	if !c20WaitTimeout(&wg, 90*time.Second) {
 		atomic.AddInt64(&st.stuck, 1)
 		buf := make([]byte, 1<<20)
 		buf = buf[:runtime.Stack(buf, true)]
